@@ -30,6 +30,7 @@ func propC12(c *Ctx) propInfo {
 	c.wireSizes("liteclient")
 	c.connectionDispatch()
 	c.handTagDispatch()
+	c.loopVarEscape("E17.loopvar-escape", "liteclient")
 	c.nilContradictions("E1.P8-nil-contradiction", "liteclient")
 	la := c.newLockAnalysis("liteclient")
 	la.guardedBy("E9.K1-guarded-by", guardedLiteclient, map[string]string{
@@ -457,6 +458,31 @@ func (c *Ctx) silenceTimer() {
 			} else {
 				okv = true
 			}
+			// the module's go directive is below 1.23: Reset does not discard a tick that is already
+			// waiting in the channel. Every Reset of a timer whose channel this loop reads must come
+			// after `if !t.Stop() { <-t.C }` (or a non-blocking drain): a Stop call on the same timer
+			// in the same block or a dominating block of the loop. Otherwise a tick that fired while
+			// the reader was busy survives the Reset and the next select times out at once.
+			allInstrs(f, func(b *ssa.BasicBlock, in ssa.Instruction) {
+				cl, ok := in.(*ssa.Call)
+				if !ok || callQName(&cl.Call) != "time.Timer.Reset" || cl.Call.Args[0] != timer || !inLoop(b) {
+					return
+				}
+				drained := false
+				allInstrs(f, func(b2 *ssa.BasicBlock, in2 ssa.Instruction) {
+					c2, ok := in2.(*ssa.Call)
+					if !ok || callQName(&c2.Call) != "time.Timer.Stop" || c2.Call.Args[0] != timer || !inLoop(b2) {
+						return
+					}
+					if b2 == b || b2.Dominates(b) {
+						drained = true
+					}
+				})
+				if !drained {
+					okv = false
+					why = "the reusable timer is Reset without a preceding Stop-and-drain: with the module's pre-1.23 timer semantics a tick that fired while the reader was blocked stays in the channel, and the next select takes the timeout branch immediately (a healthy connection is torn down)"
+				}
+			})
 		}
 	}
 	c.check(okv, R, "every iteration of the reader restarts the silence timer", sel.Pos(), "time.After(reconnectTimeout) inside the loop", "Connection.reader: "+why+": a healthy connection that only sees ping/pong traffic for reconnectTimeout is torn down and a call in flight loses its answer")
